@@ -357,6 +357,21 @@ def _literal_len_bound(atom, pol, pname):
             if op == "Gt":
                 return c + 1 + off
         return 0
+    if len(atom) > 3 and atom[1] in ("switch", "switch_not") and hasattr(atom[2], "op") and atom[2].op != "discr":
+        # `match xs.len() { 0 | 1 => .., _ => .. }`: a switch on the length itself
+        off = _len_offset_of_len(atom[2], pname)
+        if off is not None:
+            if atom[1] == "switch" and isinstance(atom[3], int):
+                if pol:
+                    return atom[3] + off
+                return 1 + off if atom[3] == 0 else 0
+            if atom[1] == "switch_not" and pol:
+                ex = set(v for v in atom[3] if isinstance(v, int))
+                m = 0
+                while m in ex:
+                    m += 1
+                return m + off
+        return 0
     some = None
     if pol and atom[1] == "is_some":
         some = atom[2]
